@@ -23,10 +23,7 @@ pub fn cfg() -> Cfg {
     // known deviations of C01 (d-f) are probed by C01 only
     Cfg {
         callcc: true,
-        probe_qq_keyword: 0,
         probe_temp_capture: 0,
-        probe_begin_define: 0,
-        probe_qq_vector_derived: 0,
         ..Cfg::default()
     }
 }
